@@ -74,7 +74,7 @@ func (w *World) RunTasks(reqs [][]*Req, cfg sched.Config, res *eng.Result) *sche
 
 // ServeSolo serves q alone on the calling goroutine, outside any scheduler run.
 func (w *World) ServeSolo(q *Req) {
-	q.Local.SoloCap = 20000
+	q.Local.SoloCap = StepCap(20000)
 	sched.SetSolo(&q.Local)
 	w.Serve(q)
 	sched.SetSolo(nil)
